@@ -484,6 +484,36 @@ def run_session(tier, acc):
         elif not (runs[0].stdout == runs[1].stdout == runs[2].stdout):
             d = next(i for i in range(N) if len(set(r.stdout[i] for r in runs)) > 1)
             acc.fail(case, 'three random_walk runs over a ruleset with tied values differ: word %d is %r' % (d + 1, [r.stdout[d] for r in runs]), 'session-reproducible')
+    # --load next to -m random_walk / honeywords: with a save file that a cracking session over ANOTHER ruleset (and other flags) left under the same
+    # session name, and without any save file: N words of the ruleset named on the command line either way
+    for have_sav in (True, False):
+        S.clear_session(td)
+        if have_sav:
+            A = S.run_guesser(td, ['-r', 't', '--all_lower'], quit_after=2)
+            if A.sav is None:
+                acc.count('no_save_file_for_the_load_layer')
+                continue
+        keep = None if not have_sav else (open(os.path.join(td, 'default_run.sav')).read())
+        for mode in ('random_walk', 'honeywords'):
+            for N in (1, 12):
+                S.set_session(td, keep, None)
+                r1 = S.run_guesser(td, ['-r', 'v', '-m', mode, '-n', str(N), '--load'])
+                acc.evals += 1
+                acc.nontrivial += 1
+                case = {'layer': 'session', 'mode': mode, 'N': N, 'load': 'with a save file of another ruleset' if have_sav else 'without a save file'}
+                if r1.exc and 'SystemExit' not in r1.exc:
+                    acc.fail(case, '%s -n %d --load (%s) raised %s' % (mode, N, case['load'], r1.exc.strip().splitlines()[-1]), 'session-raise')
+                    continue
+                bad = [w for w in r1.stdout if w not in lang]
+                if len(r1.stdout) != N or bad:
+                    acc.fail(case, '%s -n %d --load (%s) produced %d words, %d of them outside the language of the ruleset named on the command line (e.g. %r)'
+                             % (mode, N, case['load'], len(r1.stdout), len(bad), bad[:3]), 'session-load')
+                elif mode == 'random_walk':
+                    S.clear_session(td)
+                    r2 = S.run_guesser(td, ['-r', 'v', '-m', mode, '-n', str(N)])
+                    if r2.stdout != r1.stdout:
+                        acc.fail(case, 'random_walk -n %d with --load (%s) and without it differ: %r vs %r' % (N, case['load'], r1.stdout[:4], r2.stdout[:4]), 'session-load')
+    S.clear_session(td)
     # an edited ruleset (edit_rules.py removes structures and does not renormalise): the structure probabilities sum to 0.7
     edited = dict(D.TERMINALS[1])
     edited.update(grammar=[('A1D1', .4), ('D2', .3)], prince=D.PRINCE)
